@@ -322,7 +322,7 @@ def _run_lc(case, keep):
 
 class C06(Prop):
     id = "C06"
-    lean_modules = ["VivModel.Props.C06"]
+    lean_modules = ["VivModel.Props.C06", "VivModel.Props.C06Src"]
     build_targets = ["VivModel.Model.Context", "VivModel.Model.Proto"]
     driver = "C06"
     technique = "Lean 4 proof (induction over request lists and action lists; decide over tables regenerated from engine.py) + differential correspondence with the real SimulationContext / InteractiveContext / LifeCycleManager"
